@@ -214,6 +214,20 @@ func findPlant(ps []Plant, name string) (Plant, bool) {
 
 // program regenerates the tree of a static case.
 func (c Case) program() (*Node, string) {
+	if c.Part == "lists" {
+		var file *Node
+		forEachListProgram(func(idx int64, name string, f *Node) bool {
+			if idx == int64(c.Index) {
+				file = f
+				return false
+			}
+			return true
+		})
+		if file == nil {
+			fw.Fatal("list program %d not found", c.Index)
+		}
+		return file, "list"
+	}
 	base := buildBase(c.Chain).File
 	switch {
 	case c.Plant == "":
@@ -326,6 +340,7 @@ func (l *limiter) add(fs []finding) {
 // level is one enumeration level: static programs over container chains of
 // one length, or call graphs with one number of edges.
 type level struct {
+	lists    bool // every parameter list and argument list up to a length
 	static   bool
 	n        int
 	stmtOnly bool // static: statement plants only
@@ -333,6 +348,9 @@ type level struct {
 }
 
 func (l level) name() string {
+	if l.lists {
+		return fmt.Sprintf("lists:all-parameter-and-argument-lists-of-length<=%d", maxListLen)
+	}
 	if l.static && l.stmtOnly {
 		return fmt.Sprintf("static:container-chains-of-length-%d(statement-plants-only)", l.n)
 	}
@@ -351,6 +369,7 @@ func levels(thorough bool) []level {
 	if thorough {
 		maxd, maxe = 2, 5
 	}
+	ls = append(ls, level{lists: true})
 	for d := 0; d <= maxd; d++ {
 		ls = append(ls, level{static: true, n: d})
 	}
@@ -396,6 +415,33 @@ func worker(c *fw.Ctx) *fw.Stats {
 	staticCut := false
 	for lvi, lv := range levels(c.Thorough()) {
 		unit = int64(lvi) << 40 // the same numbering in every shard wherever an earlier level stopped
+		if lv.lists {
+			listOpts := []int{0, 63, 1 << 5}
+			completed := true
+			forEachListProgram(func(idx int64, name string, file *Node) bool {
+				if !c.Mine(idx) {
+					return true
+				}
+				text := Render(file)
+				for _, o := range listOpts {
+					lim.add(checkProgram(Case{Part: "lists", Plant: name, Index: int(idx), Opts: o}, file, text, "list", st))
+				}
+				st.Count("parameter_and_argument_list_programs", 1)
+				if idx%4001 == 7 {
+					st.Sample(map[string]any{"list_program": text, "reference_default_options": fmt.Sprint(RefCheck(file, Opts{}, predeclaredNames))})
+				}
+				if idx%64 == 0 && c.Expired() {
+					completed = false
+					return false
+				}
+				return true
+			})
+			if !completed {
+				return cut()
+			}
+			done()
+			continue
+		}
 		if lv.static && staticCut && !lv.late {
 			st.Count("levelcut:"+lnames[li], 1)
 			li++
